@@ -226,7 +226,7 @@ func evalC03(c *Ctx, cs *Case) {
 	}
 	// reference results from Markdown
 	type obs struct {
-		text      [3]string
+		text      [5]string
 		enc       [3]string
 		encErr    [3]bool
 		rows      []model.Row
@@ -234,7 +234,7 @@ func evalC03(c *Ctx, cs *Case) {
 		dry       string
 		errTextNE bool
 	}
-	branches := []int{0, 3, 4}
+	branches := []int{0, 3, 4, 6, 7}
 	encOpts := []gtree.Option{gtree.WithEncodeJSON(), gtree.WithEncodeYAML(), gtree.WithEncodeTOML()}
 	encNames := []string{"json", "yaml", "toml"}
 	var md obs
